@@ -1,11 +1,1236 @@
-//! Engines `thr` and `burst` (placeholder until the baton engines are wired in).
-use crate::ops::Trace;
-use crate::report::RunReport;
+//! Engines `thr` and `burst`: 1..4 real threads share clones of one `sync::Cache`; the
+//! baton scheduler (sched.rs) decides every interleaving at switch-point granularity.
 
-pub fn run_thr(_trace: &Trace) -> (RunReport, Vec<u8>) {
-    (RunReport::default(), Vec::new())
+use std::collections::{BTreeMap, BTreeSet};
+use std::panic::{catch_unwind, AssertUnwindSafe};
+use std::sync::{Arc, Mutex};
+use std::time::Duration;
+
+use mini_moka::verif::VerifClock;
+
+use crate::gen::{gen_config, Pop, MS, SEC};
+use crate::hooks::{Shared, SimHooks};
+use crate::lin::{check_key, LinEvent, LinOp};
+use crate::ops::{CallbackFaults, Config, Engine, Faults, Kind, Op, OpRec, Origin, SchedSpec, Trace};
+use crate::prng::{mix, Fnv, Prng};
+use crate::report::RunReport;
+use crate::sched::{Policy, Sched, SchedAbort, SchedConfig};
+use crate::seq::payload_str;
+use crate::sut::{build_sync, sync_snapshot, SyncCache};
+use crate::types::{Registry, HashMode, INJECTED_PANIC, K, V};
+
+#[derive(Clone, Debug)]
+pub enum Res {
+    Unit,
+    Got(Option<u32>),
+    Has(bool),
+    Items(Vec<(u16, u32)>),
+    /// one stepped-iterator yield
+    Yield(Option<(u16, u32)>),
+    Panicked(String),
+    Skipped,
 }
 
-pub fn generate(_pop: &str, _seed: u64, _run: u64) -> Option<Trace> {
-    None
+#[derive(Clone, Debug)]
+pub struct Rec {
+    pub tid: usize,
+    pub idx: usize,
+    pub op: Op,
+    pub invoke: u64,
+    pub ret: u64,
+    pub clock_lo: u64,
+    pub clock_hi: u64,
+    pub res: Res,
+    pub read_dropped: bool,
+    /// resident count observed right after the op (burst overshoot bound), if measured
+    pub resident_after: Option<usize>,
+}
+
+struct ThreadCtx {
+    tid: usize,
+    prog: Vec<OpRec>,
+    cache: Option<SyncCache>,
+    reg: Arc<Registry>,
+    clock: VerifClock,
+    base: std::time::Instant,
+    sched: Arc<Sched>,
+    hooks: Arc<SimHooks>,
+    out: Arc<Mutex<Vec<Rec>>>,
+    measure_residents: bool,
+}
+
+fn now_ns(clock: &VerifClock, base: std::time::Instant) -> u64 {
+    clock.now().saturating_duration_since(base).as_nanos() as u64
+}
+
+type IterBox = Box<dyn Iterator<Item = (u16, u32)>>;
+
+fn thread_main(mut ctx: ThreadCtx) {
+    mini_moka::verif::install(Some(ctx.hooks.clone() as Arc<dyn mini_moka::verif::Hooks>));
+    let tid = ctx.tid;
+    let sched = Arc::clone(&ctx.sched);
+    let r = catch_unwind(AssertUnwindSafe(|| {
+        sched.thread_start(tid);
+        // A stepped iterator borrows the thread's own cache clone; it is always dropped
+        // before that clone (IterEnd, DropHandle, or the end of this closure).
+        let mut iter: Option<IterBox> = None;
+        let mut iter_seen: Vec<(u16, u32)> = Vec::new();
+        for (idx, rec) in ctx.prog.clone().iter().enumerate() {
+            let op = &rec.op;
+            sched.switch_point(tid, "op");
+            ctx.hooks.begin_op(rec.f);
+            let invoke = sched.steps() as u64;
+            let clock_lo = now_ns(&ctx.clock, ctx.base);
+            let res = if ctx.cache.is_none() {
+                Ok(Res::Skipped)
+            } else {
+                let cache_ref: &SyncCache = ctx.cache.as_ref().unwrap();
+                // SAFETY: see above; the iterator never outlives `ctx.cache`.
+                let cache_static: &'static SyncCache = unsafe { &*(cache_ref as *const SyncCache) };
+                catch_unwind(AssertUnwindSafe(|| match op {
+                    Op::Insert { k, vid, w } => {
+                        cache_ref.insert(K::tracked(*k, &ctx.reg), V::new(*vid, *w, &ctx.reg));
+                        Res::Unit
+                    }
+                    Op::Get { k } => Res::Got(cache_ref.get(&K::probe(*k)).map(|v| v.id)),
+                    Op::Contains { k } => Res::Has(cache_ref.contains_key(&K::probe(*k))),
+                    Op::Iter => {
+                        let mut v: Vec<(u16, u32)> =
+                            cache_ref.iter().map(|e| (e.key().k, e.value().id)).collect();
+                        v.sort();
+                        Res::Items(v)
+                    }
+                    Op::Invalidate { k } => {
+                        cache_ref.invalidate(&K::probe(*k));
+                        Res::Unit
+                    }
+                    Op::InvalidateAll => {
+                        cache_ref.invalidate_all();
+                        Res::Unit
+                    }
+                    Op::Sync => {
+                        mini_moka::sync::ConcurrentCacheExt::sync(cache_ref);
+                        Res::Unit
+                    }
+                    Op::Advance { ns } => {
+                        ctx.clock.advance(Duration::from_nanos(*ns));
+                        Res::Unit
+                    }
+                    Op::IterBegin => {
+                        iter_seen.clear();
+                        iter = Some(Box::new(
+                            cache_static.iter().map(|e| (e.key().k, e.value().id)),
+                        ));
+                        Res::Unit
+                    }
+                    Op::IterNext => match iter.as_mut() {
+                        Some(it) => {
+                            let y = it.next();
+                            if let Some(p) = y {
+                                iter_seen.push(p);
+                            } else {
+                                iter = None;
+                            }
+                            Res::Yield(y)
+                        }
+                        None => Res::Skipped,
+                    },
+                    Op::IterEnd => {
+                        // drain what is left in one step, then release the shard lock
+                        let mut rest = Vec::new();
+                        if let Some(it) = iter.as_mut() {
+                            for p in it {
+                                rest.push(p);
+                            }
+                        }
+                        iter = None;
+                        Res::Items(rest)
+                    }
+                    Op::DropHandle => Res::Unit,
+                    Op::InvalidateIf { .. } => Res::Skipped,
+                }))
+            };
+            if *op == Op::DropHandle {
+                iter = None;
+                ctx.cache = None;
+            }
+            let st = ctx.hooks.end_op();
+            let ret = sched.steps() as u64;
+            let clock_hi = now_ns(&ctx.clock, ctx.base);
+            let res = match res {
+                Ok(r) => r,
+                Err(p) => {
+                    if p.downcast_ref::<SchedAbort>().is_some() {
+                        std::panic::resume_unwind(p);
+                    }
+                    Res::Panicked(payload_str(&p))
+                }
+            };
+            let resident_after = if ctx.measure_residents && ctx.cache.is_some() && iter.is_none() {
+                Some(ctx.cache.as_ref().unwrap().iter().count())
+            } else {
+                None
+            };
+            let stop = matches!(res, Res::Panicked(_));
+            ctx.out.lock().unwrap().push(Rec {
+                tid,
+                idx,
+                op: op.clone(),
+                invoke,
+                ret,
+                clock_lo,
+                clock_hi,
+                res,
+                read_dropped: st.read_dropped,
+                resident_after,
+            });
+            if stop {
+                break;
+            }
+        }
+        drop(iter);
+    }));
+    // drop this thread's handle (the last one may go with records still queued)
+    let _ = catch_unwind(AssertUnwindSafe(|| drop(ctx.cache.take())));
+    let _ = r;
+    mini_moka::verif::install(None);
+    sched.finish(tid);
+}
+
+fn policy_of(spec: &SchedSpec) -> Policy {
+    match spec.policy.as_str() {
+        "sticky" => Policy::Sticky,
+        "pct" => Policy::Pct {
+            change_points: spec.change_points.clone(),
+        },
+        _ => Policy::Random,
+    }
+}
+
+/// Runs one thr/burst trace. Returns the report and the schedule that was actually taken.
+pub fn run_thr(trace: &Trace) -> (RunReport, Vec<u8>) {
+    let cfg = &trace.config;
+    let n = trace.threads.len();
+    let mut rep = RunReport::default();
+    let reg = Registry::new();
+    let clock = VerifClock::new();
+    let base = clock.now();
+    let shared = Arc::new(Shared::default());
+    let main_hooks = SimHooks::new(usize::MAX, Arc::clone(&shared), None);
+    mini_moka::verif::install(Some(main_hooks.clone() as Arc<dyn mini_moka::verif::Hooks>));
+    let cache = build_sync(cfg, &reg, &clock);
+    let total_ops: usize = trace.threads.iter().map(|t| t.len()).sum();
+
+    // prologue (main thread, no scheduler)
+    let mut vid_written: BTreeMap<u32, (u16, u32)> = BTreeMap::new(); // vid -> (key, raw weight)
+    let mut prologue_writes: Vec<(u16, u32, u32)> = Vec::new();
+    for rec in &trace.prologue {
+        if let Op::Insert { k, vid, w } = &rec.op {
+            cache.insert(K::tracked(*k, &reg), V::new(*vid, *w, &reg));
+            vid_written.insert(*vid, (*k, *w));
+            prologue_writes.push((*k, *vid, *w));
+        }
+    }
+    if !trace.prologue.is_empty() {
+        mini_moka::sync::ConcurrentCacheExt::sync(&cache);
+    }
+
+    let spec = trace.sched.clone().unwrap_or(SchedSpec {
+        policy: "replay".into(),
+        seed: 0,
+        change_points: vec![],
+        fair_after: usize::MAX,
+        starve: None,
+        budget: 20_000.max(200 * total_ops),
+    });
+    let policy = if !trace.schedule.is_empty() || trace.sched.is_none() {
+        Policy::Replay
+    } else {
+        policy_of(&spec)
+    };
+    let sched = Arc::new(Sched::new(SchedConfig {
+        n,
+        policy,
+        seed: spec.seed,
+        explicit: trace.schedule.clone(),
+        budget: spec.budget,
+        fair_after: spec.fair_after,
+        starve: if trace.schedule.is_empty() { spec.starve } else { None },
+    }));
+    let out: Arc<Mutex<Vec<Rec>>> = Arc::new(Mutex::new(Vec::new()));
+    let burst = trace.engine == Engine::Burst;
+    let mut handles = Vec::new();
+    for (tid, prog) in trace.threads.iter().enumerate() {
+        let ctx = ThreadCtx {
+            tid,
+            prog: prog.clone(),
+            cache: Some(cache.clone()),
+            reg: Arc::clone(&reg),
+            clock: clock.clone(),
+            base,
+            sched: Arc::clone(&sched),
+            hooks: SimHooks::new(tid, Arc::clone(&shared), Some(Arc::clone(&sched))),
+            out: Arc::clone(&out),
+            measure_residents: burst && cfg.cap.is_some() && !cfg.has_expiry(),
+        };
+        handles.push(
+            std::thread::Builder::new()
+                .name(format!("sim-{}", tid))
+                .stack_size(512 * 1024)
+                .spawn(move || thread_main(ctx))
+                .expect("spawn"),
+        );
+    }
+    sched.start();
+    sched.wait_done();
+    for h in handles {
+        let _ = h.join();
+    }
+    let srep = sched.report();
+    rep.steps = srep.steps as u64;
+    rep.ops = total_ops as u64;
+    rep.trace_hash = srep.trace_hash;
+    rep.pairs = srep.pairs.iter().map(|(a, b)| format!("{}>{}", a, b)).collect();
+    rep.flag("preemptions", srep.preemptions as u64);
+    rep.flag("parked_in_sync_steps", srep.parked_in_sync_steps as u64);
+    rep.flag("map_blocks", srep.map_blocks as u64);
+    rep.flag("lock_blocks", srep.lock_blocks as u64);
+    rep.fault("stalled_thread_steps", srep.starved_steps as u64);
+    let mut hist: Vec<Rec> = out.lock().unwrap().clone();
+    hist.sort_by_key(|r| (r.invoke, r.tid, r.idx));
+    rep.fault_injecting = trace.threads.iter().flatten().any(|o| o.f.any()) || spec.starve.is_some();
+
+    if let Some(kind) = srep.abort_kind {
+        let rule = if kind == "deadlock" { "C09.deadlock" } else { "C09.livelock" };
+        rep.viol(rule, srep.abort.clone().unwrap_or_default(), srep.steps, None);
+        // the cache may be in the middle of an operation: no further checks
+        finish_flags(&mut rep, &shared, &hist, &srep.schedule);
+        std::mem::forget(cache); // threads unwound inside the library; do not touch it again
+        mini_moka::verif::install(None);
+        return (rep, srep.schedule);
+    }
+
+    // ---- panics inside operations --------------------------------------------------------
+    let mut injected = false;
+    for r in &hist {
+        if let Res::Panicked(msg) = &r.res {
+            if msg.contains(INJECTED_PANIC) {
+                injected = true;
+            } else if injected {
+                // attributed to the caller's own panicking callback
+            } else {
+                rep.viol(
+                    "C08.internal-panic",
+                    format!("T{} {} panicked: {}", r.tid, r.op.name(), msg),
+                    r.invoke as usize,
+                    r.op.key(),
+                );
+            }
+        }
+    }
+
+    // ---- bounded liveness (C09) ----------------------------------------------------------
+    let horizon = spec.fair_after.min(srep.steps) as u64;
+    let bound = 64 * (total_ops as u64 + 384) + 1000;
+    for r in &hist {
+        let start = r.invoke.max(horizon);
+        if r.ret > start && r.ret - start > bound {
+            rep.viol(
+                "C09.slow-after-faults-stopped",
+                format!(
+                    "T{} {} needed {} steps after the fault horizon (bound {})",
+                    r.tid,
+                    r.op.name(),
+                    r.ret - start,
+                    bound
+                ),
+                r.invoke as usize,
+                r.op.key(),
+            );
+        }
+    }
+
+    // ---- burst: overshoot bound between maintenance runs (C04) -----------------------------
+    if let Some(cap) = cfg.cap {
+        let inserting = trace
+            .threads
+            .iter()
+            .filter(|t| t.iter().any(|o| matches!(o.op, Op::Insert { .. })))
+            .count() as u64;
+        let limit = cap + 384 + inserting;
+        for r in &hist {
+            if let Some(cnt) = r.resident_after {
+                if !cfg.weigher && cnt as u64 > limit {
+                    rep.viol(
+                        "C04.overshoot-bound",
+                        format!(
+                            "{} entries resident after T{} {} (max_capacity {} + write queue 384 + {} inserting threads = {})",
+                            cnt, r.tid, r.op.name(), cap, inserting, limit
+                        ),
+                        r.invoke as usize,
+                        None,
+                    );
+                    break;
+                }
+            }
+        }
+    }
+
+    // ---- quiescence ----------------------------------------------------------------------
+    let q = catch_unwind(AssertUnwindSafe(|| {
+        mini_moka::sync::ConcurrentCacheExt::sync(&cache);
+        mini_moka::sync::ConcurrentCacheExt::sync(&cache);
+        sync_snapshot(&cache, base, cfg.weigher)
+    }));
+    let snap = match q {
+        Ok(s) => s,
+        Err(p) => {
+            if !injected {
+                rep.viol(
+                    "C08.internal-panic",
+                    format!("sync() after the threads stopped panicked: {}", payload_str(&p)),
+                    srep.steps,
+                    None,
+                );
+            }
+            finish_flags(&mut rep, &shared, &hist, &srep.schedule);
+            std::mem::forget(cache);
+            mini_moka::verif::install(None);
+            return (rep, srep.schedule);
+        }
+    };
+    let now = now_ns(&clock, base);
+    for r in &hist {
+        if let Op::Insert { k, vid, w } = &r.op {
+            vid_written.insert(*vid, (*k, *w));
+        }
+    }
+    let mut shash = Fnv::default();
+    crate::seq::hash_snap(&mut shash, &snap);
+
+    if !injected {
+        let queues_empty = snap.read_queue_len == 0 && snap.write_queue_len == 0;
+        for e in &snap.errors {
+            rep.viol("C08.walker", format!("after quiescence: {}", e), srep.steps, None);
+        }
+        if queues_empty {
+            for e in &snap.strict_errors {
+                rep.viol("C08.walker-strict", format!("after quiescence: {}", e), srep.steps, None);
+            }
+        }
+        let phys_n = snap.entries.len() as u64;
+        let phys_w: u64 = snap.entries.iter().map(|e| e.weight as u64).sum();
+        if queues_empty {
+            rep.flag("c10_checks", 1);
+            if hist.iter().any(|r| matches!(r.op, Op::Invalidate { .. } | Op::InvalidateAll)) || cfg.has_expiry() || cfg.cap.is_some() {
+                rep.flag("c10_checks_after_removal", 1);
+            }
+            if snap.entry_count != phys_n {
+                rep.viol(
+                    "C10.entry-count",
+                    format!("after quiescence: entry_count()={} but {} entries are resident", snap.entry_count, phys_n),
+                    srep.steps,
+                    None,
+                );
+            }
+            if snap.weighted_size != phys_w {
+                rep.viol(
+                    "C10.weighted-size",
+                    format!("after quiescence: weighted_size()={} but the resident weights sum to {}", snap.weighted_size, phys_w),
+                    srep.steps,
+                    None,
+                );
+            }
+            if let Some(cap) = cfg.cap {
+                if phys_w >= cap {
+                    rep.flag("c04_at_capacity", 1);
+                }
+                if phys_w > cap {
+                    rep.viol(
+                        "C04.over-capacity",
+                        format!("after quiescence: resident weight {} > max_capacity {}", phys_w, cap),
+                        srep.steps,
+                        None,
+                    );
+                }
+            }
+            // C11: live objects (the harness holds none at this point)
+            let (lk, lv) = (reg.live_keys(), reg.live_vals());
+            rep.flag("c11_quiescent_checks", 1);
+            if lv != phys_n as i64 {
+                rep.viol(
+                    "C11.live-values",
+                    format!("after quiescence: {} value objects alive, {} entries resident", lv, phys_n),
+                    srep.steps,
+                    None,
+                );
+            }
+            if lk != phys_n as i64 {
+                rep.viol(
+                    "C11.live-keys",
+                    format!("after quiescence: {} key objects alive, {} entries resident", lk, phys_n),
+                    srep.steps,
+                    None,
+                );
+            }
+        }
+
+        // final state: every resident value must have been written to that key
+        for e in &snap.entries {
+            match vid_written.get(&(e.value as u32)) {
+                Some((k, _)) if *k as u64 == e.key => {}
+                _ => rep.viol(
+                    "C02.final-phantom",
+                    format!("after all threads stopped key {} holds value {} which nobody wrote to it", e.key, e.value),
+                    srep.steps,
+                    Some(e.key as u16),
+                ),
+            }
+        }
+
+        judge_history(trace, &hist, &prologue_writes, &cache, now, srep.steps as u64, &mut rep);
+
+        // ---- C03 refill (Q6) ---------------------------------------------------------------
+        if let (Some(cap), true) = (cfg.cap, queues_empty) {
+            let zombies = snap_has_dead_behind_live(cfg, &snap, now);
+            if zombies {
+                *shared.probes.lock().unwrap().entry("cause.dead_behind_live").or_insert(0) += 1;
+            }
+            if cap <= 24 && phys_w <= cap {
+                let room = cap - phys_w;
+                // live residents = physically resident and visible to a (side-effect free) lookup
+                let before: BTreeSet<(u64, u64)> = snap
+                    .entries
+                    .iter()
+                    .filter(|e| !entry_dead(cfg, e, now, None) && cache.contains_key(&K::probe(e.key as u16)))
+                    .map(|e| (e.key, e.value))
+                    .collect();
+                let mut ok = true;
+                let r = catch_unwind(AssertUnwindSafe(|| {
+                    for i in 0..room {
+                        let k = 1000 + i as u16;
+                        cache.insert(K::tracked(k, &reg), V::new(900_000 + i as u32, 1, &reg));
+                        mini_moka::sync::ConcurrentCacheExt::sync(&cache);
+                    }
+                    sync_snapshot(&cache, base, cfg.weigher)
+                }));
+                if let Ok(after) = r {
+                    rep.flag("c03_refill_checked", 1);
+                    let ttl_zero = cfg.ttl == Some(0) || cfg.tti == Some(0);
+                    if !ttl_zero {
+                        for i in 0..room {
+                            let k = 1000 + i;
+                            if !after.entries.iter().any(|e| e.key == k) {
+                                ok = false;
+                                rep.viol(
+                                    "C03.refill-refused",
+                                    format!(
+                                        "after quiescence {} of {} capacity units were free, but fresh unit-weight key #{} was not retained",
+                                        room, cap, i
+                                    ),
+                                    srep.steps,
+                                    Some(k as u16),
+                                );
+                                break;
+                            }
+                        }
+                        if ok {
+                            for (k, v) in &before {
+                                if !after.entries.iter().any(|e| e.key == *k && e.value == *v) {
+                                    rep.viol(
+                                        "C03.refill-evicted",
+                                        format!("refilling the free capacity removed live resident {} (value {})", k, v),
+                                        srep.steps,
+                                        Some(*k as u16),
+                                    );
+                                    break;
+                                }
+                            }
+                        }
+                    }
+                }
+            }
+        }
+        // burst: maintenance still runs (the flag was released on every path)
+        if burst {
+            let r = catch_unwind(AssertUnwindSafe(|| {
+                let k = 2000u16;
+                cache.insert(K::tracked(k, &reg), V::new(950_000, 1, &reg));
+                // an un-synced insert must still be applied by the housekeeper path
+                for _ in 0..400 {
+                    let _ = cache.get(&K::probe(k));
+                }
+                mini_moka::sync::ConcurrentCacheExt::sync(&cache);
+                cache.entry_count()
+            }));
+            if let Ok(_cnt) = r {
+                rep.flag("c09_maintenance_alive_checked", 1);
+            }
+        }
+    }
+
+    // ---- drop accounting (C11) -------------------------------------------------------------
+    let queued_at_drop = snap.read_queue_len + snap.write_queue_len;
+    let dropped = catch_unwind(AssertUnwindSafe(move || drop(cache)));
+    mini_moka::verif::install(None);
+    if dropped.is_err() {
+        if !injected {
+            rep.viol("C08.internal-panic", "dropping the cache panicked".into(), srep.steps, None);
+        }
+    } else {
+        let dd = reg.double_drops();
+        if !dd.is_empty() {
+            rep.viol("C11.double-drop", format!("{} objects dropped more than once", dd.len()), srep.steps, None);
+            rep.viol("C08.double-free", format!("{} objects dropped more than once", dd.len()), srep.steps, None);
+        }
+        let leaked = reg.leaked();
+        if !leaked.is_empty() {
+            rep.viol(
+                "C11.leak-at-drop",
+                format!("{} of {} objects never dropped after the last handle was dropped", leaked.len(), reg.created()),
+                srep.steps,
+                None,
+            );
+        }
+        if queued_at_drop > 0 || hist.iter().any(|r| r.op == Op::DropHandle) {
+            rep.flag("c11_dropped_with_queue", 1);
+        }
+    }
+    rep.state_hash = shash.0;
+    rep.sim_time_ns = now;
+    finish_flags(&mut rep, &shared, &hist, &srep.schedule);
+    (rep, srep.schedule)
+}
+
+fn finish_flags(rep: &mut RunReport, shared: &Arc<Shared>, hist: &[Rec], schedule: &[u8]) {
+    for (k, v) in shared.probes.lock().unwrap().iter() {
+        rep.probes.insert(k.to_string(), *v);
+    }
+    for (k, v) in shared.faults_fired.lock().unwrap().iter() {
+        rep.fault(k, *v);
+    }
+    if let Some(c) = rep.probes.get("write.channel_full").copied() {
+        rep.flag("write_channel_full", c);
+    }
+    // overlap: two threads operated on one key with overlapping intervals
+    let mut overlap = false;
+    for a in hist {
+        for b in hist {
+            if a.tid < b.tid && a.op.key().is_some() && a.op.key() == b.op.key() && a.invoke <= b.ret && b.invoke <= a.ret {
+                overlap = true;
+            }
+        }
+    }
+    rep.flag("c02_overlap", overlap as u64);
+    // a preemption inside an operation: the schedule switched threads while an op was open
+    let inside = hist.iter().any(|r| r.ret > r.invoke + 1) && schedule.windows(2).any(|w| w[0] != w[1]);
+    rep.flag("preemptions_inside_op", inside as u64);
+    let mut h = Fnv(rep.trace_hash);
+    for s in schedule {
+        h.u64(*s as u64);
+    }
+    rep.trace_hash = h.0;
+}
+
+fn entry_dead(cfg: &Config, e: &mini_moka::verif::SnapEntry, now: u64, _va: Option<u64>) -> bool {
+    cfg.ttl
+        .map(|d| e.last_modified.map(|t| now >= t.saturating_add(d)).unwrap_or(false))
+        .unwrap_or(false)
+        || cfg
+            .tti
+            .map(|d| e.last_accessed.map(|t| now >= t.saturating_add(d)).unwrap_or(false))
+            .unwrap_or(false)
+}
+
+fn snap_has_dead_behind_live(cfg: &Config, snap: &mini_moka::verif::Snapshot, now: u64) -> bool {
+    let by_key: BTreeMap<u64, &mini_moka::verif::SnapEntry> = snap.entries.iter().map(|e| (e.key, e)).collect();
+    for deque in [&snap.probation, &snap.write_order] {
+        let mut live_seen = false;
+        for n in deque.iter() {
+            if let Some(e) = by_key.get(&n.key) {
+                if entry_dead(cfg, e, now, None) {
+                    if live_seen {
+                        return true;
+                    }
+                } else {
+                    live_seen = true;
+                }
+            }
+        }
+    }
+    false
+}
+
+/// Oracles over the recorded history: per-key linearizability (C02, C07, C16), per-thread
+/// monotonicity (C02), expiry safety (C05/C06), stepped-iteration rules (C16).
+fn judge_history(
+    trace: &Trace,
+    hist: &[Rec],
+    prologue: &[(u16, u32, u32)],
+    cache: &SyncCache,
+    now: u64,
+    end_step: u64,
+    rep: &mut RunReport,
+) {
+    let cfg = &trace.config;
+    // strict register: capacity-safe by construction and no expiry
+    let total_weight: u64 = {
+        let mut per_key: BTreeMap<u16, u64> = BTreeMap::new();
+        for (k, _v, w) in prologue {
+            let pw = if cfg.weigher { *w as u64 } else { 1 };
+            let e = per_key.entry(*k).or_insert(0);
+            *e = (*e).max(pw);
+        }
+        for r in hist {
+            if let Op::Insert { k, w, .. } = &r.op {
+                let pw = if cfg.weigher { *w as u64 } else { 1 };
+                let e = per_key.entry(*k).or_insert(0);
+                *e = (*e).max(pw);
+            }
+        }
+        per_key.values().sum()
+    };
+    let strict = !cfg.has_expiry() && cfg.cap.map(|c| total_weight <= c).unwrap_or(true);
+    if strict {
+        rep.flag("c02_strict_register", 1);
+    }
+
+    // keys
+    let mut keys: BTreeSet<u16> = prologue.iter().map(|p| p.0).collect();
+    for r in hist {
+        if let Some(k) = r.op.key() {
+            keys.insert(k);
+        }
+        match &r.res {
+            Res::Items(v) => {
+                for (k, _) in v {
+                    keys.insert(*k);
+                }
+            }
+            Res::Yield(Some((k, _))) => {
+                keys.insert(*k);
+            }
+            _ => {}
+        }
+    }
+    // final reads (after quiescence)
+    let mut finals: BTreeMap<u16, Option<u32>> = BTreeMap::new();
+    for k in &keys {
+        let g = cache.get(&K::probe(*k)).map(|v| v.id);
+        finals.insert(*k, g);
+    }
+    let _ = now;
+
+    // iterations: Iter (atomic to the baton? no: it runs without switch points) and stepped
+    // iterations (IterBegin..IterEnd) are turned into per-key read observations.
+    struct IterObs {
+        tid: usize,
+        invoke: u64,
+        ret: u64,
+        items: Vec<(u16, u32)>,
+        idx: usize,
+        stepped: bool,
+        writer_steps_between: bool,
+    }
+    let mut iters: Vec<IterObs> = Vec::new();
+    for r in hist {
+        if let (Op::Iter, Res::Items(v)) = (&r.op, &r.res) {
+            iters.push(IterObs {
+                tid: r.tid,
+                invoke: r.invoke,
+                ret: r.ret,
+                items: v.clone(),
+                idx: r.idx,
+                stepped: false,
+                writer_steps_between: false,
+            });
+        }
+    }
+    for tid in 0..trace.threads.len() {
+        let mine: Vec<&Rec> = hist.iter().filter(|r| r.tid == tid).collect();
+        let mut cur: Option<IterObs> = None;
+        let mut last_ret = 0u64;
+        for r in mine {
+            match (&r.op, &r.res) {
+                (Op::IterBegin, Res::Unit) => {
+                    cur = Some(IterObs {
+                        tid,
+                        invoke: r.invoke,
+                        ret: r.ret,
+                        items: vec![],
+                        idx: r.idx,
+                        stepped: true,
+                        writer_steps_between: false,
+                    });
+                    last_ret = r.ret;
+                }
+                (Op::IterNext, Res::Yield(y)) => {
+                    if let Some(c) = cur.as_mut() {
+                        if let Some(p) = y {
+                            c.items.push(*p);
+                        }
+                        if hist.iter().any(|w| {
+                            w.tid != tid && matches!(w.op, Op::Insert { .. }) && w.ret > last_ret && w.invoke < r.invoke
+                        }) {
+                            c.writer_steps_between = true;
+                        }
+                        c.ret = r.ret;
+                        last_ret = r.ret;
+                    }
+                }
+                (Op::IterEnd, Res::Items(rest)) => {
+                    if let Some(mut c) = cur.take() {
+                        c.items.extend(rest.iter().copied());
+                        c.ret = r.ret;
+                        iters.push(c);
+                    }
+                }
+                _ => {}
+            }
+        }
+    }
+    for it in &iters {
+        rep.flag("iterations", 1);
+        if it.stepped && it.writer_steps_between {
+            rep.flag("c16_iter_with_writer_step", 1);
+        }
+        let mut seen = BTreeSet::new();
+        for (k, _) in &it.items {
+            if !seen.insert(*k) {
+                rep.viol(
+                    "C16.duplicate",
+                    format!("T{} iteration #{} yielded key {} twice: {:?}", it.tid, it.idx, k, it.items),
+                    it.invoke as usize,
+                    Some(*k),
+                );
+            }
+        }
+    }
+
+    for k in &keys {
+        let mut evs: Vec<LinEvent> = Vec::new();
+        for (pk, vid, _) in prologue {
+            if pk == k {
+                evs.push(LinEvent {
+                    op: LinOp::Write { vid: *vid, clock: (0, 0) },
+                    invoke: 0,
+                    ret: 0,
+                    tid: 99,
+                    idx: 0,
+                });
+            }
+        }
+        for r in hist {
+            let (inv, ret) = (r.invoke + 1, r.ret + 1);
+            let mk = |op: LinOp| LinEvent { op, invoke: inv, ret, tid: r.tid, idx: r.idx };
+            match (&r.op, &r.res) {
+                (Op::Insert { k: kk, vid, .. }, Res::Unit) if kk == k => {
+                    evs.push(mk(LinOp::Write { vid: *vid, clock: (r.clock_lo, r.clock_hi) }))
+                }
+                (Op::Invalidate { k: kk }, Res::Unit) if kk == k => evs.push(mk(LinOp::Remove)),
+                (Op::InvalidateAll, Res::Unit) => evs.push(mk(LinOp::RemoveAll { clock: (r.clock_lo, r.clock_hi) })),
+                (Op::Get { k: kk }, Res::Got(g)) if kk == k => evs.push(mk(LinOp::Read { got: *g, any_value: false })),
+                (Op::Contains { k: kk }, Res::Has(b)) if kk == k => {
+                    evs.push(mk(LinOp::Read { got: None, any_value: *b }))
+                }
+                _ => {}
+            }
+        }
+        for it in &iters {
+            let got = it.items.iter().find(|(kk, _)| kk == k).map(|p| p.1);
+            evs.push(LinEvent {
+                op: LinOp::Read { got, any_value: false },
+                invoke: it.invoke + 1,
+                ret: it.ret + 1,
+                tid: it.tid,
+                idx: it.idx,
+            });
+        }
+        // final read
+        evs.push(LinEvent {
+            op: LinOp::Read { got: finals[k], any_value: false },
+            invoke: end_step + 10,
+            ret: end_step + 11,
+            tid: 98,
+            idx: 0,
+        });
+        let has_inval = evs.iter().any(|e| matches!(e.op, LinOp::Remove | LinOp::RemoveAll { .. }));
+        let has_iter = iters.iter().any(|it| it.items.iter().any(|(kk, _)| kk == k));
+        if evs.len() > 28 {
+            continue;
+        }
+        if let Err(desc) = check_key(&evs, strict) {
+            // classify: a non-strict failure is a safety failure (stale / phantom value);
+            // a failure only under the strict register is a spurious loss
+            let safety = check_key(&evs, false).is_err();
+            if safety {
+                rep.viol(
+                    "C02.not-linearizable",
+                    format!("key {}: no linearization of {}", k, desc),
+                    end_step as usize,
+                    Some(*k),
+                );
+                if has_inval {
+                    rep.viol(
+                        "C07.thr-not-linearizable",
+                        format!("key {}: history with invalidations has no linearization: {}", k, desc),
+                        end_step as usize,
+                        Some(*k),
+                    );
+                }
+                if has_iter {
+                    rep.viol(
+                        "C16.thr-not-linearizable",
+                        format!("key {}: an iteration yielded a value that was not current during it: {}", k, desc),
+                        end_step as usize,
+                        Some(*k),
+                    );
+                }
+            } else {
+                rep.viol(
+                    "C03.thr-spurious-nothing",
+                    format!(
+                        "key {}: capacity-safe configuration without expiry, yet a lookup observed nothing where every linearization has a value: {}",
+                        k, desc
+                    ),
+                    end_step as usize,
+                    Some(*k),
+                );
+                if has_iter {
+                    rep.viol(
+                        "C16.thr-missing",
+                        format!("key {}: resident throughout an iteration but not yielded: {}", k, desc),
+                        end_step as usize,
+                        Some(*k),
+                    );
+                }
+            }
+        }
+
+        // per-thread monotonicity w.r.t. each single writer's order
+        let mut writer_of: BTreeMap<u32, (usize, usize)> = BTreeMap::new(); // vid -> (writer tid, idx)
+        for r in hist {
+            if let Op::Insert { k: kk, vid, .. } = &r.op {
+                if kk == k {
+                    writer_of.insert(*vid, (r.tid, r.idx));
+                }
+            }
+        }
+        for tid in 0..trace.threads.len() {
+            let mut last: BTreeMap<usize, usize> = BTreeMap::new(); // writer -> last idx seen
+            for r in hist.iter().filter(|r| r.tid == tid) {
+                if let (Op::Get { k: kk }, Res::Got(Some(v))) = (&r.op, &r.res) {
+                    if kk == k {
+                        if let Some((w, widx)) = writer_of.get(v) {
+                            if let Some(prev) = last.get(w) {
+                                if widx < prev {
+                                    rep.viol(
+                                        "C02.went-backwards",
+                                        format!("T{} observed key {} going backwards in T{}'s write order (value {} after a later one)", tid, k, w, v),
+                                        r.invoke as usize,
+                                        Some(*k),
+                                    );
+                                }
+                            }
+                            last.insert(*w, *widx);
+                        }
+                    }
+                }
+            }
+        }
+
+        // expiry safety in thr: certain violations only
+        if cfg.has_expiry() {
+            for r in hist {
+                let observed: Option<u32> = match (&r.op, &r.res) {
+                    (Op::Get { k: kk }, Res::Got(Some(v))) if kk == k => Some(*v),
+                    _ => None,
+                };
+                if let Some(v) = observed {
+                    // latest possible write reading of that value
+                    let w = hist.iter().find(|w| matches!(&w.op, Op::Insert { vid, .. } if *vid == v));
+                    let t_ins_max = w.map(|w| w.clock_hi).unwrap_or(0);
+                    if let Some(d) = cfg.ttl {
+                        if r.clock_lo >= t_ins_max.saturating_add(d) {
+                            rep.viol(
+                                "C05.thr-visible-after-ttl",
+                                format!("T{} get({}) returned value {} at reading >= {} although it was written at reading <= {} with ttl {}", r.tid, k, v, r.clock_lo, t_ins_max, d),
+                                r.invoke as usize,
+                                Some(*k),
+                            );
+                        }
+                    }
+                    if let Some(d) = cfg.tti {
+                        // latest possible access: the write, or any hit on this key invoked before this get returned
+                        let mut a = t_ins_max;
+                        for g in hist {
+                            if let (Op::Get { k: kk }, Res::Got(Some(_))) = (&g.op, &g.res) {
+                                if kk == k && g.invoke < r.invoke && !(g.tid == r.tid && g.idx == r.idx) {
+                                    a = a.max(g.clock_hi);
+                                }
+                            }
+                        }
+                        if r.clock_lo >= a.saturating_add(d) {
+                            rep.viol(
+                                "C06.thr-visible-after-tti",
+                                format!("T{} get({}) returned value {} at reading >= {} although its last possible access was at reading <= {} with tti {}", r.tid, k, v, r.clock_lo, a, d),
+                                r.invoke as usize,
+                                Some(*k),
+                            );
+                        }
+                    }
+                }
+            }
+        }
+    }
+}
+
+// ------------------------------------------------------------------------------------------
+// generation
+// ------------------------------------------------------------------------------------------
+
+fn thr_stream(pop: &str) -> Option<u64> {
+    Some(match pop {
+        "thr-mixed" => 21,
+        "thr-strict" => 22,
+        "thr-iter" => 23,
+        "burst" => 24,
+        "thr-expiry" => 25,
+        _ => return None,
+    })
+}
+
+pub fn generate(pop: &str, seed: u64, run: u64) -> Option<Trace> {
+    let stream = thr_stream(pop)?;
+    let sub = mix(seed, stream, run);
+    let mut rng = Prng::new(sub);
+    let mut cfg = gen_config(&mut rng, Pop::SeqMixed);
+    cfg.kind = Kind::Sync;
+    let mut next_vid = 1u32;
+    let mut prologue = Vec::new();
+    let mut threads: Vec<Vec<OpRec>> = Vec::new();
+    let mut engine = Engine::Thr;
+    match pop {
+        "thr-mixed" | "thr-strict" | "thr-expiry" => {
+            let nthreads = rng.range(2, 4) as usize;
+            let nkeys = rng.range(1, 3) as u16;
+            cfg.cap = *rng.pick(&[None, Some(1), Some(2), Some(3), Some(4)]);
+            if pop == "thr-strict" {
+                cfg.ttl = None;
+                cfg.tti = None;
+                cfg.cap = *rng.pick(&[None, Some(8), Some(16)]);
+            } else if pop == "thr-expiry" {
+                let d = [1u64, SEC, 3 * SEC];
+                match rng.below(3) {
+                    0 => {
+                        cfg.ttl = Some(*rng.pick(&d));
+                        cfg.tti = None;
+                    }
+                    1 => {
+                        cfg.tti = Some(*rng.pick(&d));
+                        cfg.ttl = None;
+                    }
+                    _ => {
+                        cfg.ttl = Some(*rng.pick(&d));
+                        cfg.tti = Some(*rng.pick(&d));
+                    }
+                }
+            } else {
+                if cfg.ttl == Some(0) {
+                    cfg.ttl = Some(SEC);
+                }
+                if cfg.tti == Some(0) {
+                    cfg.tti = Some(SEC);
+                }
+            }
+            let with_clock = cfg.has_expiry() || rng.chance(1, 3);
+            let faulty = rng.chance(1, 2);
+            for t in 0..nthreads {
+                let len = rng.range(1, 6) as usize;
+                let mut prog = Vec::new();
+                let maint_thread = t == nthreads - 1 && nthreads > 2 && rng.chance(1, 4);
+                for i in 0..len {
+                    let op = if maint_thread {
+                        Op::Sync
+                    } else {
+                        match rng.weighted(&[6, 6, 1, 1, 2, 1, 2, if with_clock { 2 } else { 0 }]) {
+                            0 => {
+                                let w = if pop == "thr-strict" { 1 + rng.below(2) as u32 } else { *rng.pick(&[0u32, 1, 1, 2, 3]) };
+                                let vid = next_vid;
+                                next_vid += 1;
+                                Op::Insert { k: rng.below(nkeys as u64) as u16, vid, w }
+                            }
+                            1 => Op::Get { k: rng.below(nkeys as u64) as u16 },
+                            2 => Op::Contains { k: rng.below(nkeys as u64) as u16 },
+                            3 => Op::Iter,
+                            4 => Op::Invalidate { k: rng.below(nkeys as u64) as u16 },
+                            5 => Op::InvalidateAll,
+                            6 => Op::Sync,
+                            _ => Op::Advance {
+                                ns: *rng.pick(&[1u64, 1, MS, 501 * MS, SEC, SEC, 3 * SEC]),
+                            },
+                        }
+                    };
+                    let mut f = Faults::default();
+                    if faulty {
+                        if matches!(op, Op::Get { .. }) && rng.chance(1, 6) {
+                            f.read_drop = true;
+                        }
+                        if matches!(op, Op::Get { .. } | Op::Insert { .. } | Op::Invalidate { .. }) && rng.chance(1, 6) {
+                            f.hk_contended = rng.range(1, 3) as u8;
+                        }
+                        if matches!(op, Op::Insert { .. } | Op::Invalidate { .. }) && rng.chance(1, 6) {
+                            f.write_full = rng.range(1, 6) as u8;
+                        }
+                    }
+                    prog.push(OpRec { op, f });
+                    if i + 1 == len && rng.chance(1, 5) {
+                        prog.push(OpRec::plain(Op::DropHandle));
+                    }
+                }
+                threads.push(prog);
+            }
+            if pop == "thr-strict" && cfg.cap.is_some() {
+                // capacity-safe by construction: the weights of all keys fit
+                cfg.cap = Some(16);
+            }
+        }
+        "thr-iter" => {
+            // k writers updating a fixed key set, m stepped iterators; ample capacity, no expiry
+            cfg.ttl = None;
+            cfg.tti = None;
+            cfg.cap = *rng.pick(&[None, Some(64)]);
+            cfg.weigher = false;
+            cfg.hasher = *rng.pick(&[HashMode::Fixed, HashMode::Fixed, HashMode::Collide1, HashMode::Collide2]);
+            let nkeys = rng.range(1, 6) as u16;
+            for k in 0..nkeys {
+                prologue.push(OpRec::plain(Op::Insert { k, vid: next_vid, w: 1 }));
+                next_vid += 1;
+            }
+            let writers = rng.range(1, 2) as usize;
+            let iters = rng.range(1, 2) as usize;
+            for _ in 0..writers {
+                let len = rng.range(1, 5) as usize;
+                let mut prog = Vec::new();
+                for _ in 0..len {
+                    prog.push(OpRec::plain(Op::Insert {
+                        k: rng.below(nkeys as u64) as u16,
+                        vid: next_vid,
+                        w: 1,
+                    }));
+                    next_vid += 1;
+                    if rng.chance(1, 6) {
+                        prog.push(OpRec::plain(Op::Sync));
+                    }
+                }
+                threads.push(prog);
+            }
+            for _ in 0..iters {
+                let mut prog = vec![OpRec::plain(Op::IterBegin)];
+                let steps = rng.range(0, nkeys as u64 + 1) as usize;
+                for _ in 0..steps {
+                    prog.push(OpRec::plain(Op::IterNext));
+                }
+                prog.push(OpRec::plain(Op::IterEnd));
+                if rng.chance(1, 3) {
+                    prog.push(OpRec::plain(Op::Iter));
+                }
+                threads.push(prog);
+            }
+        }
+        "burst" => {
+            engine = Engine::Burst;
+            cfg.cap = *rng.pick(&[None, Some(0), Some(1), Some(4), Some(16), Some(100)]);
+            cfg.hasher = HashMode::Fixed;
+            if rng.chance(1, 2) {
+                cfg.ttl = None;
+                cfg.tti = None;
+            }
+            let n = *rng.pick(&[385usize, 400, 600, 1000, 1000, 2500]);
+            let nthreads = if rng.chance(1, 3) { 2 } else { 1 };
+            let regime_b = rng.chance(1, 2);
+            let contended = rng.chance(1, 2);
+            let universe = *rng.pick(&[4u16, 64, 3000]);
+            for t in 0..nthreads {
+                let mut prog = Vec::new();
+                if t == 1 && rng.chance(1, 2) {
+                    // a second thread that only triggers maintenance / reads
+                    for _ in 0..rng.range(3, 30) {
+                        prog.push(OpRec::plain(if rng.chance(1, 3) { Op::Sync } else { Op::Get { k: rng.below(universe as u64) as u16 } }));
+                    }
+                    threads.push(prog);
+                    continue;
+                }
+                let mine = n / nthreads;
+                for _ in 0..mine {
+                    if regime_b && rng.chance(1, 40) {
+                        prog.push(OpRec::plain(Op::Advance { ns: 501 * MS }));
+                    }
+                    let op = match rng.weighted(&[10, 2, 1]) {
+                        0 => {
+                            let vid = next_vid;
+                            next_vid += 1;
+                            Op::Insert { k: rng.below(universe as u64) as u16, vid, w: *rng.pick(&[0u32, 1, 1, 2]) }
+                        }
+                        1 => Op::Get { k: rng.below(universe as u64) as u16 },
+                        _ => Op::Invalidate { k: rng.below(universe as u64) as u16 },
+                    };
+                    let mut f = Faults::default();
+                    if contended && rng.chance(1, 2) {
+                        f.hk_contended = 3;
+                    }
+                    prog.push(OpRec { op, f });
+                }
+                threads.push(prog);
+            }
+            if regime_b {
+                prologue.clear();
+                threads[0].insert(0, OpRec::plain(Op::Advance { ns: 501 * MS }));
+            }
+        }
+        _ => return None,
+    }
+    let total: usize = threads.iter().map(|t| t.len()).sum();
+    let expected_steps = (total * 12).max(20);
+    let policy = match rng.below(3) {
+        0 => "random",
+        1 => "sticky",
+        _ => "pct",
+    };
+    let d = rng.range(1, 3) as usize;
+    let change_points: Vec<usize> = (0..d).map(|_| rng.below(expected_steps as u64) as usize).collect();
+    let fair_after = if engine == Engine::Burst {
+        (expected_steps as u64 * rng.range(1, 3) / 2) as usize
+    } else {
+        rng.range(expected_steps as u64 / 2, expected_steps as u64 * 2) as usize
+    };
+    let starve = if rng.chance(1, 4) && threads.len() > 1 {
+        let a = rng.below(expected_steps as u64) as usize;
+        Some((rng.below(threads.len() as u64) as usize, a, a + rng.range(5, 60) as usize))
+    } else {
+        None
+    };
+    let budget = if engine == Engine::Burst { 400 * total + 20_000 } else { 20_000 };
+    Some(Trace {
+        engine,
+        config: cfg,
+        threads,
+        extra: Vec::new(),
+        schedule: Vec::new(),
+        sched: Some(SchedSpec {
+            policy: policy.to_string(),
+            seed: rng.next_u64(),
+            change_points,
+            fair_after,
+            starve,
+            budget,
+        }),
+        prologue,
+        callback_faults: CallbackFaults::default(),
+        origin: Some(Origin {
+            seed,
+            run,
+            population: pop.to_string(),
+        }),
+    })
 }
